@@ -646,7 +646,9 @@ def _pad_arithmetic(ctx: Ctx, pv, gpb):
         rd, ex = make(node, lp=P[2], rp=P[3], lens=P[1])
         rets = [n for n in ast.walk(node) if isinstance(n, ast.Return) and isinstance(n.value, ast.Tuple) and len(n.value.elts) == 2]
         if len(rets) != 1:
-            raise AnalysisError("C09: _get_padding_buffers does not return (left, right) once")
+            # (a mode that no arm serves ends in the refusal: reported by the dispatch rules; nothing to compare here)
+            col.undecided(f"C09: _get_padding_buffers specialised on mode {mode!r} does not return (left, right) once")
+            continue
         for slot, elt in enumerate(rets[0].value.elts):
             ds = list(rd.defs_of(elt)) if isinstance(elt, ast.Name) else []
             if len(ds) != 1 or ds[0].kind != "assign":
